@@ -10,6 +10,7 @@ import ScVerif.C12.Served
 import ScVerif.C12.Naming
 import ScVerif.C12.Wrapped
 import ScVerif.C12.WrapMore
+import ScVerif.C12.Options
 /-!
 Driver handler for C12: parses one request line, runs the model, prints the canonical answer.
 
@@ -33,6 +34,7 @@ wroute <fb> <fac> <ops> <name> <method> <req> <stagedHdr> <stagedTrailer> <devic
 wcall <method> <req> <stagedHdr> <sentHdr> <stagedTrailer> <out> <opts>   a unary call on a wrapper with call options `h<var>` grpc.Header(&var) / `t<var>` grpc.Trailer(&var) / `o` other, separated by `.`; answers the variables
 wcallc <method> <req> <stagedHdr> <sentHdr> <stagedTrailer> <opts> <ce>   the same call, the device parked (after staging / sending its header) when the caller's context ends with error `ce` (1 cancelled, 2 deadline)
 wcancel <fb> <fac> <ops> <name> <method> <req> <stagedHdr> <stagedTrailer> <devicescript> <reuse r|f> <park h|r<k>> <ce>   a stream call routed to a wrapped server whose device parks (in Header() / in the Recv after k messages) until the caller cancels
+ropts <opts> <ops>                                     registry history on `NewRouter(opts...)`: options separated by `.`, in call order, `b<kind>` WithFallback, `f<kind>` WithFactory, `t<kind>` the generated With<Client>Factory, `c` WithOnChange; kind `none` passes a nil function; the history may contain `w:<name>:<what>` = Add of a value that is not a client of the router's service (answer `pp`: the generated Add panics); the function of option i (from 0) makes clients 1000*(i+1)+k; every change is prefixed with the position of the listener that was told; `calls=` per option
 Transports: `ow` overwrite, `mg` merge, `f<e>` fail, `of<e>` overwrite then fail; `<m0>` = `z` is the zero message.
 Callback kinds (shared with the Go harness, `callbackOf`): `has get rm add sib mix undo`.
 Factory kinds (shared with the Go harness): `none new err nil both pfx odd`; the fallback makes
@@ -101,6 +103,28 @@ def showReg (r : Reg) : String :=
 def showSt (s : St) : String :=
   "log=" ++ commaList (s.log.map showChange) ++ " reg=" ++ showReg s.reg ++
     " nfb=" ++ toString s.nfb ++ " nfac=" ++ toString s.nfac
+
+/-- One option token at position `i`. -/
+def parseROpt? (i : Nat) (s : String) : Option ROpt :=
+  let kind := (s.drop 1).toString
+  if s = "c" then some (.onChange i)
+  else if s.startsWith "b" then (factoryOf (1000 * (i + 1)) kind).map (.fallback i)
+  else if s.startsWith "f" then (factoryOf (1000 * (i + 1)) kind).map (.factory i)
+  else if s.startsWith "t" && kind != "none" then (factoryOf (1000 * (i + 1)) kind).map (.factory i)
+  else none
+
+def parseGOp? (s : String) : Option GOp :=
+  match s.splitOn ":" with
+  | ["w", n, _] => some (.addForeign (unTilde n))
+  | _ => (parseOp? s).map .op
+
+def showGRes : GRes → String
+  | .res r => showRes r
+  | .panicked => "pp"
+
+def parseROpts? (s : String) : Option (List ROpt) :=
+  let toks := splitList s "."
+  (List.range toks.length).zip toks |>.mapM fun p => parseROpt? p.1 p.2
 
 def parseErr? (s : String) : Option Err :=
   if s = "eof" then some .eof
@@ -348,6 +372,17 @@ def handle? (toks : List String) : Option String :=
     let ops ← parseOps? ops
     let (s, tr) := runRe cfg cb depth 0 St.init ops
     pure ("tr=" ++ commaList (tr.map fun p => showOp p.1 ++ ">" ++ showRes p.2) ++ " " ++ showSt s)
+  | ["ropts", opts, ops] => do
+    let opts ← parseROpts? opts
+    let ops ← (splitList ops ",").mapM parseGOp?
+    let r := newRouter opts
+    let (s, rs) := grun r.cfg St.init ops
+    let heard := match r.onChange with
+      | some t => s.log.map fun c => toString t ++ ">" ++ showChange c
+      | none => []
+    let calls := (List.range opts.length).map fun t => toString (callsOf r s t)
+    pure ("res=" ++ commaList (rs.map showGRes) ++ " log=" ++ commaList heard ++ " reg=" ++ showReg s.reg ++
+      " calls=" ++ (if calls.isEmpty then "-" else ".".intercalate calls))
   | ["reg", fb, fac, ops] => do
     let cfg ← cfgOf fb fac
     let ops ← parseOps? ops
